@@ -532,6 +532,9 @@ class UnaryTable:
         if not known:
             # dict[k] without a preceding membership test: KeyError when absent
             if not I.branch(z3.Function('InUnary', self.w.Cat, z3.BoolSort())(k.e), node):
+                # a table that is a collections.defaultdict (depccg/allennlp/utils.py builds one) is EXTENDED by this subscript instead of raising:
+                # the caller's argument would change
+                I.oblige('frame', z3.BoolVal(False), node, extra='unary_rules[x] is evaluated for a key that may be absent: a defaultdict table would be modified (arguments must stay unchanged)')
                 raise PyRaise('KeyError', 'category not in unary_rules', node)
         elif known[-1] is False:
             raise PyRaise('KeyError', 'category not in unary_rules', node)
